@@ -27,6 +27,9 @@ structure Cfg where
   tdLimitSec : Nat
   /-- `sys.get_int_max_str_digits()`: `int()` raises `ValueError` on more digits (leading zeros count) -/
   intMaxDigits : Nat
+  /-- `is_usable_location`: accepted URL schemes and the host names that mean loopback -/
+  schemes : List String := ["http", "https"]
+  loopbackNames : List String := ["localhost"]
 deriving Repr, DecidableEq
 
 namespace Parse
@@ -240,23 +243,26 @@ def v6Groups (h : List Char) : Option (List Nat) :=
 /-- loopback (127.0.0.0/8) or IPv4 link-local (169.254.0.0/16) -/
 def v4Bad (o : List Nat) : Bool := o.head? == some 127 || o.take 2 == [169, 254]
 
-/-- the host is loopback or IPv4 link-local: the name `localhost`, an IPv4 literal in 127/8 or 169.254/16, the IPv6
-    loopback `::1` in any spelling, or an IPv4-mapped IPv6 address of such an IPv4 address -/
-def hostBadByText (h : List Char) : Bool :=
-  lowerL h == "localhost".toList ||
+/-- the host is loopback or IPv4 link-local: one of the loopback names (`localhost`; `hostname` is lower-cased), an
+    IPv4 literal in 127/8 or 169.254/16, the IPv6 loopback `::1` in any spelling (zone or not), or an IPv4-mapped IPv6
+    address of such an IPv4 address -/
+def hostBad (names : List String) (h : List Char) : Bool :=
+  names.any (fun n => lowerL h == n.toList) ||
   (isV4 h && v4Bad ((splitOnC '.' h).map digitsToNat)) ||
   (match v6Groups h with
    | some [0, 0, 0, 0, 0, 0, 0, 1] => true
    | some [0, 0, 0, 0, 0, 65535, g7, g8] => v4Bad [g7 / 256, g7 % 256, g8 / 256, g8 % 256]
    | _ => false)
 
-/-- "an http(s) location that is neither loopback nor IPv4 link-local": an `http:` / `https:` URL with a host that is
-    not loopback / link-local.  (Legacy shorthand hosts such as `127.1` are names in this reading.) -/
-def locByText (loc : String) : Bool :=
-  let raw := (urlClean loc.toList).takeWhile (· != ':')      -- the scheme as written (lower case, as UDA URLs are)
-  (raw == "http".toList || raw == "https".toList) &&
+/-- `is_usable_location`: the location starts with `pre` (`http`), `urlparse` succeeds, the scheme is `http` / `https`,
+    there is a host, and the host is neither loopback nor IPv4 link-local (`hostBad`); a host that is no IP literal
+    is a name and is accepted.  This is also the property text's reading of "an http(s) location that is neither
+    loopback nor IPv4 link-local".  (Legacy shorthand hosts such as `127.1` are names.) -/
+def locUsable (pre : String) (schemes names : List String) (loc : String) : Bool :=
+  pre.toList.isPrefixOf loc.toList &&
+  schemes.any (fun sc => (splitScheme (urlClean loc.toList)).1 == sc.toList) &&
   (match (netlocOfUrl loc.toList).bind hostOfNetloc with
-   | some h => !hostBadByText h
+   | some h => !hostBad names h
    | none => false)
 
 /-! ### from raw headers to the event -/
@@ -294,7 +300,7 @@ def mkMsg (cfg : Cfg) (kind : Kind) (h : Hdrs String) : Msg String :=
     ntsOk := (truthy (get? h "nts")).isSome
     loc := loc
     locOk := match loc with
-      | some l => if isSearch then locOk cfg.searchPrefix cfg.searchNeedles l else locOk cfg.advPrefix cfg.advNeedles l
+      | some l => locUsable cfg.searchPrefix cfg.schemes cfg.loopbackNames l
       | none => false
     maxAge := effMaxAge cfg (tsOf h) ((hget h "cache-control").getD "")
     hdrs := h }
@@ -318,14 +324,6 @@ def parseEv (cfg : Cfg) (sockA : Bool) (pairs : List (String × String)) : Ev St
   else
     if (truthy (get? h "nts")).isSome then .noise (tsOf h)
     else .msg (mkMsg cfg .search (SMap.write lower h "_source" "search"))
-
-/-- the judges' reading of an event: the same message, with the location judged by the property text
-    (`locByText`) instead of the code's substring test -/
-def textReading : Ev String → Ev String
-  | .msg m => .msg { m with locOk := match m.loc with
-      | some l => locByText l
-      | none => false }
-  | e => e
 
 end Parse
 end Upnp.C03
